@@ -108,11 +108,12 @@ spec fn cut_len(rows: Seq<Seq<(BlockHash, u32)>>, chain: Seq<CachedBlock>, c: in
 }
 
 // the upper bound check (get_utxos.rs:209)
-//@slice file=canister/src/api/get_utxos.rs item="fn get_utxos_from_chain" from="if chain.len() < min_confirmations as usize {" to="if chain.len() < min_confirmations as usize {" to_block=1 props=C04,C05
+//@slice file=canister/src/api/get_utxos.rs item="fn get_utxos_from_chain" from_after="let address = Address::from_str_checked" to_before="let mut address_utxos = state.get_utxos(address);" props=C04,C05
 //@ rewrite R3 "GetUtxosError::" => "GetUtxosErrorFull::"
 //@ head
-//@| fn get_utxos_bound_check(chain: &BlockChain<CachedBlock>, min_confirmations: u32) -> (r: Result<(), GetUtxosErrorFull>)
-//@|     requires chain@.len() < 0x1_0000_0000,
+//@| // R8 slice: the statements between the address parsing and `state.get_utxos(address)`
+//@| fn get_utxos_bound_check(state: &State, chain: &BlockChain<CachedBlock>, min_confirmations: u32) -> (r: Result<(), GetUtxosErrorFull>)
+//@|     requires chain@.len() < 0x1_0000_0000, state_ranges(state),
 //@|     ensures
 //@|         // a c larger than the number of unstable best-chain blocks is refused with an explicit error, nothing else is
 //@|         r.is_err() <==> chain@.len() < min_confirmations,
@@ -130,8 +131,8 @@ proof fn lemma_cut_stuck(rows: Seq<Seq<(BlockHash, u32)>>, chain: Seq<CachedBloc
 }
 
 // the prefix walk (get_utxos.rs:218-236)
-//@slice file=canister/src/api/get_utxos.rs item="fn get_utxos_from_chain" from="let mut tip_block_hash = chain.first().block_hash();" to="for (i, block) in chain.into_chain().iter().enumerate() {" to_block=1 props=C04
-//@ rewrite R4 "for \(i, block\) in chain\.into_chain\(\)\.iter\(\)\.enumerate\(\) \{" => "let vp_chain = chain.into_chain(); let mut vp_n: usize = 0; for block in it: vp_chain.iter() { let i = vp_n; vp_n = vp_n + 1;"
+//@slice file=canister/src/api/get_utxos.rs item="fn get_utxos_from_chain" from_after="let mut address_utxos = state.get_utxos(address);" to_before="stats.ins_apply_unstable_blocks = performance_counter() - ins_start;" props=C04,C02
+//@ rewrite R4 "for \(i, block\) in chain\.into_chain\(\)\.iter\(\)\.enumerate\(\) \{" => "let vp_chain = chain.into_chain(); let mut vp_n: usize = 0; for block in it: vp_chain.iter() { let i = vp_n; vp_n = vp_n + 1; proof { lemma_walk_step(state, blocks_with_depths_by_heights@, vp_rows, vp_chain@, vp_chain_view, i as int); }"
 //@ head
 //@| fn get_utxos_walk<'a>(state: &'a State, chain: BlockChain<'a, CachedBlock>, min_confirmations: u32, address_utxos: &mut AddressUtxoSet) -> (r: (&'a BlockHash, u32))
 //@|     requires
@@ -170,16 +171,6 @@ proof fn lemma_cut_stuck(rows: Seq<Seq<(BlockHash, u32)>>, chain: Seq<CachedBloc
 //@|     rows_small(vp_rows),
 //@| ensures
 //@|     walk_result(state, vp_chain_view, vp_c, address_utxos.applied@, *tip_block_hash, tip_block_height),
-//@ before "if min_confirmations > 0"
-//@| proof {
-//@|     let ghost row = blocks_with_depths_by_heights@[i as int]@;
-//@|     assert(row_view(row) =~= vp_rows[i as int]);
-//@|     assert forall|j: int| 0 <= j < row.len() implies (#[trigger] row[j]).1 < 0x8000_0000 by {
-//@|         assert(row_view(row)[j] == vp_rows[i as int][j]);
-//@|     }
-//@|     assert(*vp_chain@[i as int] == vp_chain_view[i as int]);
-//@|     lemma_best_path_le_depth(&state.unstable_blocks.tree);
-//@| }
 //@ before "tip_block_hash = block.block_hash();"
 //@| proof {
 //@|     assert(row_view(blocks_with_depths_by_heights@[i as int]@) =~= vp_rows[i as int]);
@@ -190,6 +181,27 @@ proof fn lemma_cut_stuck(rows: Seq<Seq<(BlockHash, u32)>>, chain: Seq<CachedBloc
 //@ tail
 //@| (tip_block_hash, tip_block_height)
 //@end
+
+// what each iteration of either walk needs about row i and block i (kept out of the loop bodies so that the proof
+// does not depend on how the body is written)
+proof fn lemma_walk_step(state: &State, rows_exec: Seq<Vec<(&BlockHash, u32)>>, rows: Seq<Seq<(BlockHash, u32)>>, chain_exec: Seq<&CachedBlock>, chain: Seq<CachedBlock>, i: int)
+    requires
+        0 <= i < chain.len(), chain.len() <= rows_exec.len(), rows.len() == rows_exec.len(),
+        deref_seq(chain_exec) =~= chain,
+        forall|k: int| 0 <= k < rows_exec.len() ==> row_view((#[trigger] rows_exec[k])@) =~= rows[k],
+        rows_small(rows),
+    ensures
+        row_view(rows_exec[i]@) =~= rows[i],
+        forall|j: int| 0 <= j < rows_exec[i]@.len() ==> (#[trigger] rows_exec[i]@[j]).1 < 0x8000_0000,
+        *chain_exec[i] == chain[i],
+{
+    let row = rows_exec[i]@;
+    assert(row_view(row) =~= rows[i]);
+    assert forall|j: int| 0 <= j < row.len() implies (#[trigger] row[j]).1 < 0x8000_0000 by {
+        assert(row_view(row)[j] == rows[i][j]);
+    }
+    assert(*chain_exec[i] == deref_seq(chain_exec)[i]);
+}
 
 spec fn rows_small(rows: Seq<Seq<(BlockHash, u32)>>) -> bool {
     forall|h: int, j: int| 0 <= h < rows.len() && 0 <= j < rows[h].len() ==> (#[trigger] rows[h][j]).1 < 0x8000_0000
@@ -297,8 +309,8 @@ spec fn balances_in_range(ub: &UnstableBlocks, a: Address, chain: Seq<CachedBloc
             ==> 0 <= #[trigger] bal_mid_rem(ub, a, chain, b0, k, jr) <= u64::MAX
 }
 
-//@slice file=canister/src/api/get_balance.rs item="fn get_balance_private" from="let blocks_with_depths_by_heights =" to="for (i, block) in main_chain.into_chain().iter().enumerate() {" to_block=1 props=C05
-//@ rewrite R4 "for \(i, block\) in main_chain\.into_chain\(\)\.iter\(\)\.enumerate\(\) \{" => "let vp_chain = main_chain.into_chain(); let mut vp_n: usize = 0; for block in it: vp_chain.iter() { let i = vp_n; vp_n = vp_n + 1;"
+//@slice file=canister/src/api/get_balance.rs item="fn get_balance_private" from_after="let ins_start = performance_counter();" to_before="let stats = Stats {" props=C05
+//@ rewrite R4 "for \(i, block\) in main_chain\.into_chain\(\)\.iter\(\)\.enumerate\(\) \{" => "let vp_chain = main_chain.into_chain(); let mut vp_n: usize = 0; for block in it: vp_chain.iter() { let i = vp_n; vp_n = vp_n + 1; proof { lemma_walk_step(state, blocks_with_depths_by_heights@, vp_rows, vp_chain@, vp_chain_view, i as int); }"
 //@ rewrite R4 "for outpoint in state\s*\.unstable_blocks\s*\.get_added_outpoints\(block\.block_hash\(\), &address\)\s*\{" => "for outpoint in ita: state.unstable_blocks.get_added_outpoints(block.block_hash(), &address) {"
 //@ rewrite R4 "for outpoint in state\s*\.unstable_blocks\s*\.get_removed_outpoints\(block\.block_hash\(\), &address\)\s*\{" => "for outpoint in itr: state.unstable_blocks.get_removed_outpoints(block.block_hash(), &address) {"
 //@ head
@@ -358,15 +370,6 @@ spec fn balances_in_range(ub: &UnstableBlocks, a: Address, chain: Seq<CachedBloc
 //@|     balances_in_range(vp_ub, address, vp_chain_view, vp_b0),
 //@|     vp_ub == &state.unstable_blocks,
 //@|     balance == bal_mid_rem(vp_ub, address, vp_chain_view, vp_b0, i as int, itr.index@),
-//@ before "if min_confirmations > 0"
-//@| proof {
-//@|     let ghost row = blocks_with_depths_by_heights@[i as int]@;
-//@|     assert(row_view(row) =~= vp_rows[i as int]);
-//@|     assert forall|j: int| 0 <= j < row.len() implies (#[trigger] row[j]).1 < 0x8000_0000 by {
-//@|         assert(row_view(row)[j] == vp_rows[i as int][j]);
-//@|     }
-//@|     assert(*vp_chain@[i as int] == vp_chain_view[i as int]);
-//@| }
 //@ before "break;"
 //@| proof { lemma_cut_stuck(vp_rows, vp_chain_view, vp_c, i as int, vp_chain_view.len() as int); }
 //@ before "balance += txout.value;"
